@@ -72,7 +72,7 @@ fn runlog_lines(path: &Path) -> usize {
 
 struct LoopResult { runs: usize, status: Option<i32>, alive_at_end: bool, timed_out: bool }
 
-fn run_command(cmd: &str, outs: &[String], expect_runs: usize) -> LoopResult {
+fn run_command(cmd: &str, outs: &[String], expect_runs: usize, sanitize_fails: bool) -> LoopResult {
     let dir = tempfile::Builder::new().prefix("vh-loop-").tempdir().expect("tempdir");
     let cache = dir.path().join("cache");
     let tals = dir.path().join("tals");
@@ -96,12 +96,15 @@ fn run_command(cmd: &str, outs: &[String], expect_runs: usize) -> LoopResult {
     let mut outcomes: Vec<String> = outs.to_vec();
     if cmd == "server" { outcomes.push("ok".into()); }
     let exe = std::env::current_exe().unwrap();
-    let mut child = Command::new(exe).arg("runloop").arg("--opt").arg(format!("child={}", argv_file.display()))
+    let mut command = Command::new(exe);
+    command.arg("runloop").arg("--opt").arg(format!("child={}", argv_file.display()))
         .env("VERIF_OUTCOMES", outcomes.join(","))
         .env("VERIF_RUNLOG", &runlog)
         .current_dir(dir.path())
-        .stdout(Stdio::null()).stderr(Stdio::null())
-        .spawn().expect("spawn child");
+        .stdout(Stdio::null()).stderr(Stdio::null());
+    // the clean-up before a retried run (Engine::sanitize) fails throughout this behaviour
+    if sanitize_fails { command.env("VERIF_SANITIZE_FAIL", "1"); } else { command.env_remove("VERIF_SANITIZE_FAIL"); }
+    let mut child = command.spawn().expect("spawn child");
     let t0 = Instant::now();
     let limit = Duration::from_secs(60);
     let mut res = LoopResult { runs: 0, status: None, alive_at_end: false, timed_out: false };
@@ -215,15 +218,16 @@ pub fn main(args: &Args) -> i32 {
     // ---------------- C32
     if args.wants("C32") {
         let mut seen = BTreeSet::new();
-        let mut jobs: Vec<(String, Vec<String>, usize, String)> = Vec::new();
+        let mut jobs: Vec<(String, Vec<String>, usize, String, bool)> = Vec::new();
         for b in &behaviours {
             if b["kind"] != "loop" { continue }
             let cmd = b["cmd"].as_str().unwrap().to_string();
             let runs = b["runs"].as_u64().unwrap() as usize;
             let outs: Vec<String> = b["outs"].as_array().unwrap().iter().take(runs).map(|x| x.as_str().unwrap().to_string()).collect();
             let exit = b["exit"].as_str().unwrap().to_string();
-            if seen.insert((cmd.clone(), outs.clone())) {
-                jobs.push((cmd, outs, runs, exit));
+            let san = b["san_fails"].as_bool().unwrap_or(false);
+            if seen.insert((cmd.clone(), outs.clone(), san)) {
+                jobs.push((cmd, outs, runs, exit, san));
             }
         }
         let queue = Arc::new(Mutex::new(jobs.into_iter()));
@@ -235,18 +239,18 @@ pub fn main(args: &Args) -> i32 {
                 let tx = tx.clone();
                 scope.spawn(move || loop {
                     let job = match queue.lock().unwrap().next() { Some(j) => j, None => break };
-                    let r = run_command(&job.0, &job.1, job.2);
+                    let r = run_command(&job.0, &job.1, job.2, job.4);
                     let _ = tx.send((job, r));
                 });
             }
             drop(tx);
         });
-        for ((cmd, outs, runs, exit), r) in rx.iter() {
+        for ((cmd, outs, runs, exit, san), r) in rx.iter() {
             rep.eval("C32"); rep.trace("C32");
-            let b = json!({"cmd": cmd, "outcomes": outs, "expected_runs": runs, "expected_exit": exit});
+            let b = json!({"cmd": cmd, "outcomes": outs, "expected_runs": runs, "expected_exit": exit, "sanitize_fails": san});
             let observed = json!({"runs": r.runs, "status": r.status, "alive_at_end": r.alive_at_end, "timed_out": r.timed_out});
             let retry_failures = outs.iter().filter(|o| *o == "retry").count();
-            if retry_failures >= 1 { rep.nontrivial("C32", format!("{cmd}:{:?}", outs)); }
+            if retry_failures >= 1 { rep.nontrivial("C32", format!("{cmd}:{:?}:{san}", outs)); }
             if outs.len() >= 2 { rep.sample("C32", json!({"behaviour": b, "observed": observed})); }
             if r.status == Some(97) || r.runs >= 50 {
                 rep.violation("C32", &format!("{cmd}/loops-forever"),
